@@ -9,6 +9,7 @@ import (
 	"strconv"
 	"strings"
 	"sync"
+	"sync/atomic"
 	"testing"
 	"time"
 
@@ -19,11 +20,16 @@ import (
 	"github.com/ava-labs/hypersdk/internal/verifh"
 )
 
-// C22: real BlockFetcherClient + Syncer against a scripted (adversarial) NetworkBlockFetcher.
+// C22: real BlockFetcherClient + Syncer against a scripted (adversarial) NetworkBlockFetcher,
+// with forward targets (UpdateSyncTarget) delivered at quiescent points: while the backfill
+// goroutine is parked inside the scripted fetcher and the consumer has drained the channel.
 
-type c22Event struct {
+type c22Item struct {
+	line   int    // index into seq.lines
+	target uint64 // kind == "target"
+	kind   string // target | err | honest | blocks
+	keep   bool   // resp with "=": leave minTimestamp to the syncer
 	newMin int64
-	kind   string // err | honest | blocks
 	k      int
 	raws   [][]byte
 }
@@ -36,9 +42,8 @@ type c22Seq struct {
 	failAt  int
 	blocks  map[uint64]*vfBlock
 	index   *vfIndex
-	target  *vfBlock
-	events  []c22Event
-	evLine  []int // index into lines of every resp line
+	target  *vfBlock // current sync target (guarded by fetcher.mu once started)
+	items   []c22Item
 	viol    []string
 	counts  []string
 	nontriv bool
@@ -46,12 +51,19 @@ type c22Seq struct {
 
 func c22Enc(n uint64) []byte { return binary.BigEndian.AppendUint64(nil, n) }
 
-type c22Parser struct{ s *c22Seq }
+// the BlockParser: exactly 8 bytes naming a known block; returns a fresh copy whose
+// GetContainers call (made once by AcceptHistorical) is counted.
+type c22Parser struct {
+	s        *c22Seq
+	histDone *atomic.Int64
+}
 
 func (p c22Parser) ParseBlock(_ context.Context, b []byte) (*vfBlock, error) {
 	if len(b) == 8 {
 		if blk, ok := p.s.blocks[binary.BigEndian.Uint64(b)]; ok {
-			return blk, nil
+			cp := *blk
+			cp.onContainers = func() { p.histDone.Add(1) }
+			return &cp, nil
 		}
 	}
 	return nil, errors.New("unparsable")
@@ -66,12 +78,14 @@ type c22Store struct {
 	saved  []*vfBlock
 	failAt int
 	n      int
+	failed atomic.Bool
 }
 
 func (s *c22Store) SaveHistorical(b *vfBlock) error {
 	s.mu.Lock()
 	defer s.mu.Unlock()
 	if s.failAt >= 0 && s.n == s.failAt {
+		s.failed.Store(true)
 		return errors.New("disk full")
 	}
 	s.n++
@@ -82,13 +96,21 @@ func (s *c22Store) SaveHistorical(b *vfBlock) error {
 type c22Req struct {
 	height uint64
 	min    int64
+	item   int
 }
 
 type c22Fetcher struct {
 	mu        sync.Mutex
 	s         *c22Seq
 	syncer    *Syncer[vfTx, *vfBlock]
-	k         int
+	client    *BlockFetcherClient[*vfBlock]
+	tvw       *TimeValidityWindow[vfTx]
+	store     *c22Store
+	histDone  atomic.Int64
+	oldest    *vfBlock
+	pos       int // next script item
+	stopped   bool
+	forced    bool // some served event set minTimestamp explicitly (environment, not the syncer)
 	reqs      []c22Req
 	exhausted chan struct{}
 	once      sync.Once
@@ -110,28 +132,99 @@ func (s *c22Seq) mainChain() map[uint64]*vfBlock { // height → block, for ance
 	}
 }
 
+func (f *c22Fetcher) isDone() bool {
+	select {
+	case <-f.syncer.doneChan:
+		return true
+	default:
+		return false
+	}
+}
+
+// quiesce waits until the consumer goroutine has handled everything the client emitted.
+// fromClient: called on the client goroutine (inside the fetch hook), where reading
+// client.lastBlock is race free; otherwise the client goroutine has exited or is irrelevant
+// (consumer finished or gone) and nothing is in flight.
+func (f *c22Fetcher) quiesce(fromClient bool) {
+	if !fromClient || f.client.lastBlock == nil {
+		return
+	}
+	emitted := 0
+	last := f.client.lastBlock.GetID()
+	for cur := f.oldest; cur.GetID() != last; emitted++ {
+		p, ok := f.s.blocks[cur.parent]
+		if !ok {
+			break
+		}
+		cur = p
+	}
+	want := int64(emitted)
+	if f.s.failAt >= 0 && emitted > f.s.failAt {
+		want = int64(f.s.failAt)
+	}
+	deadline := time.Now().Add(30 * time.Second)
+	for time.Now().Before(deadline) {
+		if f.histDone.Load() >= want && (want == int64(emitted) || f.store.failed.Load()) {
+			break
+		}
+		time.Sleep(200 * time.Microsecond)
+	}
+	f.tvw.mu.Lock() // AcceptHistorical holds the mutex from before GetContainers until seen.Add is done
+	f.tvw.mu.Unlock() //nolint:staticcheck
+}
+
+// runTargets executes the target items at the current script position (f.mu held).
+func (f *c22Fetcher) runTargets(fromClient bool) {
+	for f.pos < len(f.s.items) && f.s.items[f.pos].kind == "target" {
+		it := f.s.items[f.pos]
+		f.pos++
+		f.quiesce(fromClient)
+		t := f.s.blocks[it.target]
+		_ = f.syncer.UpdateSyncTarget(context.Background(), t)
+		f.s.target = t
+		done := f.isDone()
+		f.s.outs[it.line] = fmt.Sprintf("done=%v", done)
+		if done {
+			f.s.strongOracle("target "+strconv.FormatUint(t.n, 10), f)
+		}
+	}
+}
+
 func (f *c22Fetcher) FetchBlocksFromPeer(ctx context.Context, _ ids.NodeID, req *BlockFetchRequest) (*BlockFetchResponse, error) {
 	f.mu.Lock()
-	k := f.k
-	f.k++
-	if k < len(f.s.events) {
-		f.reqs = append(f.reqs, c22Req{req.BlockHeight, req.MinTimestamp})
+	if f.stopped {
+		f.mu.Unlock()
+		<-ctx.Done()
+		return nil, ctx.Err()
 	}
-	f.mu.Unlock()
-	if k >= len(f.s.events) {
+	f.runTargets(true)
+	if f.isDone() { // forward sync completed the window: Close() cancelled the fetch context
+		f.mu.Unlock()
+		<-ctx.Done()
+		return nil, ctx.Err()
+	}
+	if f.pos >= len(f.s.items) {
+		f.mu.Unlock()
 		f.once.Do(func() { close(f.exhausted) })
 		<-ctx.Done()
 		return nil, ctx.Err()
 	}
-	ev := f.s.events[k]
-	f.syncer.minTimestamp.Store(ev.newMin)
-	switch ev.kind {
+	it := f.s.items[f.pos]
+	f.reqs = append(f.reqs, c22Req{req.BlockHeight, req.MinTimestamp, f.pos})
+	f.pos++
+	if !it.keep {
+		f.syncer.minTimestamp.Store(it.newMin)
+		f.forced = true
+	}
+	var resp *BlockFetchResponse
+	var err error
+	switch it.kind {
 	case "err":
-		return nil, errors.New("peer error")
+		err = errors.New("peer error")
 	case "honest":
 		mc := f.s.mainChain()
-		resp := &BlockFetchResponse{}
-		for i := 0; i < ev.k; i++ {
+		resp = &BlockFetchResponse{}
+		for i := 0; i < it.k; i++ {
 			if uint64(i) > req.BlockHeight {
 				break
 			}
@@ -139,14 +232,52 @@ func (f *c22Fetcher) FetchBlocksFromPeer(ctx context.Context, _ ids.NodeID, req 
 				resp.Blocks = append(resp.Blocks, c22Enc(b.n))
 			}
 		}
-		return resp, nil
 	default:
-		return &BlockFetchResponse{Blocks: ev.raws}, nil
+		resp = &BlockFetchResponse{Blocks: it.raws}
 	}
+	f.mu.Unlock()
+	return resp, err
 }
 
 func (s *c22Seq) violation(key, format string, a ...any) {
 	s.viol = append(s.viol, key+"\x00"+fmt.Sprintf(format, a...))
+}
+
+func (s *c22Seq) seenSet(tvw *TimeValidityWindow[vfTx]) map[int]bool {
+	m := map[int]bool{}
+	for i := 0; i < s.U; i++ {
+		if tvw.seen.Any([]vfTx{{n: uint64(i)}}) {
+			m[i] = true
+		}
+	}
+	return m
+}
+
+// strongOracle: the property's statement whenever the syncer reports done — every tx of the
+// current target or of one of its ancestors that VerifyTimestamp could still admit in a later
+// block (expiry >= target.ts; hence ancestor timestamp >= target.ts - window) must be tracked.
+// Only when minTimestamp was never overridden by the script (f.forced) and no save failed.
+func (s *c22Seq) strongOracle(where string, f *c22Fetcher) {
+	if f.forced || f.store.failed.Load() {
+		return
+	}
+	seen := s.seenSet(f.tvw)
+	t := s.target
+	for cur := t; ; {
+		for _, x := range cur.txs {
+			if x.expiry >= t.ts && x.expiry != 0 && x.expiry >= cur.ts && x.expiry <= cur.ts+s.W && int(x.n) < s.U && !seen[int(x.n)] {
+				s.violation("done-before-window-complete", "%s: syncer reports done but tx %d (expiry %d) of ancestor %d (ts %d) of target %d (ts %d, window %d) is not tracked",
+					where, x.n, x.expiry, cur.n, cur.ts, t.n, t.ts, s.W)
+				return
+			}
+		}
+		p, ok := s.blocks[cur.parent]
+		if !ok || cur.height == 0 {
+			break
+		}
+		cur = p
+	}
+	s.counts = append(s.counts, "strong-oracle-evaluated")
 }
 
 func (s *c22Seq) run() {
@@ -155,172 +286,27 @@ func (s *c22Seq) run() {
 	s.outs = make([]string, len(s.lines))
 	s.blocks = map[uint64]*vfBlock{}
 	s.index = &vfIndex{blocks: map[ids.ID]*vfBlock{}}
-	var syncer *Syncer[vfTx, *vfBlock]
-	var fetcher *c22Fetcher
-	var store *c22Store
-	var tvw *TimeValidityWindow[vfTx]
-	var seenBefore map[int]bool
-	var oldest *vfBlock
 	started := false
-	seenSet := func() map[int]bool {
-		m := map[int]bool{}
-		for i := 0; i < s.U; i++ {
-			if tvw.seen.Any([]vfTx{{n: uint64(i)}}) {
-				m[i] = true
-			}
-		}
-		return m
-	}
 	for i, l := range s.lines {
 		f := verifh.Fields(l)
 		switch {
 		case f[0] == "reset" && len(f) == 4:
 			s.W, s.U, s.failAt = verifh.I(f[1]), int(verifh.U(f[2])), int(verifh.I(f[3]))
 			s.outs[i] = "ok"
-		case f[0] == "blk" && len(f) >= 6 && len(f) == 6+2*int(verifh.U(f[5])):
+		case f[0] == "blk" && len(f) >= 6 && len(f) == 6+2*int(verifh.U(f[5])) && !started:
 			b := newVfBlock(verifh.U(f[1]), verifh.U(f[2]), verifh.I(f[3]), verifh.U(f[4]), vfParseTxs(f[6:]))
 			b.bytes = c22Enc(b.n)
 			s.blocks[b.n] = b
 			s.outs[i] = "ok"
-		case f[0] == "idx+" && len(f) == 2 && s.blocks[verifh.U(f[1])] != nil:
+		case f[0] == "idx+" && len(f) == 2 && s.blocks[verifh.U(f[1])] != nil && !started:
 			s.index.blocks[vfID(verifh.U(f[1]))] = s.blocks[verifh.U(f[1])]
 			s.outs[i] = "ok"
 		case f[0] == "start" && len(f) == 2 && s.blocks[verifh.U(f[1])] != nil && !started:
 			started = true
 			s.target = s.blocks[verifh.U(f[1])]
-			// the script = all following resp lines
-			for j := i + 1; j < len(s.lines); j++ {
-				g := verifh.Fields(s.lines[j])
-				if g[0] != "resp" || len(g) < 3 {
-					continue
-				}
-				ev := c22Event{newMin: verifh.I(g[1]), kind: g[2]}
-				ok := true
-				switch {
-				case g[2] == "err" && len(g) == 3:
-				case g[2] == "honest" && len(g) == 4:
-					ev.k = int(verifh.U(g[3]))
-				case g[2] == "blocks":
-					for _, tok := range g[3:] {
-						switch {
-						case strings.HasPrefix(tok, "b"):
-							n, err := strconv.ParseUint(tok[1:], 10, 64)
-							ok = ok && err == nil
-							ev.raws = append(ev.raws, c22Enc(n))
-						case strings.HasPrefix(tok, "x"):
-							raw, err := verifh.UnHex(tok[1:])
-							ok = ok && err == nil
-							ev.raws = append(ev.raws, raw)
-						default:
-							ok = false
-						}
-					}
-				default:
-					ok = false
-				}
-				if !ok {
-					s.outs[j] = "bad-op"
-					continue
-				}
-				s.events = append(s.events, ev)
-				s.evLine = append(s.evLine, j)
-			}
-			getW := func(int64) int64 { return s.W }
-			var err error
-			tvw, err = NewTimeValidityWindow[vfTx](ctx, logging.NoLog{}, trace.Noop, s.index, s.target, getW)
-			if err != nil {
-				s.outs[i] = "err"
-				continue
-			}
-			store = &c22Store{failAt: s.failAt}
-			fetcher = &c22Fetcher{s: s, exhausted: make(chan struct{})}
-			client := NewBlockFetcherClient[*vfBlock](fetcher, c22Parser{s}, c22Sampler{})
-			syncer = NewSyncer[vfTx, *vfBlock](store, tvw, client, getW)
-			fetcher.syncer = syncer
-			// what populate will find locally (for the oracle): seen set and oldest block
-			if err := syncer.Start(ctx, s.target); err != nil {
-				s.outs[i] = "err"
-				continue
-			}
-			oldest = syncer.oldestBlock.(*vfBlock)
-			// wait for completion, save error, or script exhaustion
-			waitErr := make(chan error, 1)
-			go func() { waitErr <- syncer.Wait(ctx) }()
-			status := ""
-			select {
-			case err := <-waitErr:
-				if err != nil {
-					status = "failed"
-				} else {
-					status = "done"
-				}
-			case <-fetcher.exhausted:
-				time.Sleep(300 * time.Millisecond) // replayed scripts without a final closing event only
-				status = "running"
-			case <-time.After(120 * time.Second):
-				status = "hang"
-				s.violation("backfill-hang", "syncer neither finished nor asked for another peer response within 120 s")
-			}
-			if syncer.cancel == nil { // no fetch was started: window complete from local blocks
-				s.outs[i] = "done"
-			}
-			cancel()
-			if s.outs[i] == "" {
-				s.outs[i] = fmt.Sprintf("fetch oldest=%d min=%d", oldest.n, func() int64 {
-					o := s.target.ts - s.W
-					if o < 0 {
-						o = 0
-					}
-					return o
-				}())
-			}
-			_ = seenBefore
-			// per-event outputs
-			fetcher.mu.Lock()
-			reqs := fetcher.reqs
-			fetcher.mu.Unlock()
-			for k, j := range s.evLine {
-				switch {
-				case s.failAt >= 0:
-					s.outs[j] = "-"
-				case k < len(reqs):
-					s.outs[j] = fmt.Sprintf("req %d %d", reqs[k].height, reqs[k].min)
-				default:
-					s.outs[j] = "closed"
-				}
-			}
-			s.oracle(status, reqs, store, oldest, seenSet())
-			// end line
-			for j := i + 1; j < len(s.lines); j++ {
-				if s.lines[j] == "end" {
-					store.mu.Lock()
-					var sv []string
-					for _, b := range store.saved {
-						sv = append(sv, strconv.FormatUint(b.n, 10))
-					}
-					store.mu.Unlock()
-					svs := "-"
-					if len(sv) > 0 {
-						svs = strings.Join(sv, ",")
-					}
-					var seen []string
-					ss := seenSet()
-					for u := 0; u < s.U; u++ {
-						if ss[u] {
-							seen = append(seen, strconv.Itoa(u))
-						}
-					}
-					sns := "-"
-					if len(seen) > 0 {
-						sns = strings.Join(seen, ",")
-					}
-					tvw.mu.Lock()
-					la := tvw.lastAcceptedBlockHeight
-					tvw.mu.Unlock()
-					s.outs[j] = fmt.Sprintf("done=%v failed=%v saved=%s la=%d seen=%s", status == "done", status == "failed", svs, la, sns)
-				}
-			}
-		case f[0] == "resp" || f[0] == "end":
+			s.parseScript(i + 1)
+			s.execute(ctx, cancel, i)
+		case f[0] == "resp" || f[0] == "end" || f[0] == "target":
 			if s.outs[i] == "" {
 				s.outs[i] = "bad-op"
 			}
@@ -330,11 +316,191 @@ func (s *c22Seq) run() {
 	}
 }
 
+// parseScript turns the lines after `start` into script items.
+func (s *c22Seq) parseScript(from int) {
+	for j := from; j < len(s.lines); j++ {
+		g := verifh.Fields(s.lines[j])
+		switch {
+		case g[0] == "target" && len(g) == 2:
+			n, err := strconv.ParseUint(g[1], 10, 64)
+			if err != nil || s.blocks[n] == nil {
+				s.outs[j] = "bad-op"
+				continue
+			}
+			s.items = append(s.items, c22Item{line: j, kind: "target", target: n})
+		case g[0] == "resp" && len(g) >= 3:
+			it := c22Item{line: j, kind: g[2]}
+			ok := true
+			if g[1] == "=" {
+				it.keep = true
+			} else if v, err := strconv.ParseInt(g[1], 10, 64); err == nil {
+				it.newMin = v
+			} else {
+				ok = false
+			}
+			switch {
+			case g[2] == "err" && len(g) == 3:
+			case g[2] == "honest" && len(g) == 4:
+				k, err := strconv.ParseUint(g[3], 10, 32)
+				ok = ok && err == nil
+				it.k = int(k)
+			case g[2] == "blocks":
+				for _, tok := range g[3:] {
+					switch {
+					case strings.HasPrefix(tok, "b"):
+						n, err := strconv.ParseUint(tok[1:], 10, 64)
+						ok = ok && err == nil
+						it.raws = append(it.raws, c22Enc(n))
+					case strings.HasPrefix(tok, "x"):
+						raw, err := verifh.UnHex(tok[1:])
+						ok = ok && err == nil
+						it.raws = append(it.raws, raw)
+					default:
+						ok = false
+					}
+				}
+			default:
+				ok = false
+			}
+			if !ok {
+				s.outs[j] = "bad-op"
+				continue
+			}
+			s.items = append(s.items, it)
+		}
+	}
+}
+
+func (s *c22Seq) execute(ctx context.Context, cancel context.CancelFunc, startLine int) {
+	getW := func(int64) int64 { return s.W }
+	target0 := s.target
+	tvw, err := NewTimeValidityWindow[vfTx](ctx, logging.NoLog{}, trace.Noop, s.index, s.target, getW)
+	if err != nil {
+		s.outs[startLine] = "err"
+		return
+	}
+	store := &c22Store{failAt: s.failAt}
+	fetcher := &c22Fetcher{s: s, exhausted: make(chan struct{}), tvw: tvw, store: store}
+	client := NewBlockFetcherClient[*vfBlock](fetcher, c22Parser{s, &fetcher.histDone}, c22Sampler{})
+	syncer := NewSyncer[vfTx, *vfBlock](store, tvw, client, getW)
+	fetcher.syncer, fetcher.client = syncer, client
+	// oldestBlock is what populate finds locally; needed by the hook before Start returns
+	probe, _ := NewTimeValidityWindow[vfTx](ctx, logging.NoLog{}, trace.Noop, s.index, s.target, getW)
+	parents, _ := probe.populate(ctx, s.target)
+	fetcher.oldest = parents[0].(*vfBlock)
+	if err := syncer.Start(ctx, s.target); err != nil {
+		s.outs[startLine] = "err"
+		return
+	}
+	oldest := syncer.oldestBlock.(*vfBlock)
+	if syncer.cancel == nil { // no fetch was started: window complete from local blocks
+		s.outs[startLine] = "done"
+	} else {
+		o := target0.ts - s.W
+		if o < 0 {
+			o = 0
+		}
+		s.outs[startLine] = fmt.Sprintf("fetch oldest=%d min=%d", oldest.n, o)
+	}
+	// wait for completion, save error, or script exhaustion
+	waitErr := make(chan error, 1)
+	go func() { waitErr <- syncer.Wait(ctx) }()
+	status := ""
+	select {
+	case <-waitErr:
+	case <-fetcher.exhausted:
+		time.Sleep(300 * time.Millisecond) // replayed scripts without a final closing event only
+		status = "running"
+	case <-time.After(120 * time.Second):
+		status = "hang"
+		s.violation("backfill-hang", "syncer neither finished nor asked for another peer response within 120 s")
+	}
+	// stop the script: whatever targets remain are delivered now (consumer finished or gone)
+	fetcher.mu.Lock()
+	fetcher.stopped = true
+	for fetcher.pos < len(s.items) {
+		if s.items[fetcher.pos].kind == "target" {
+			fetcher.runTargets(false)
+		} else {
+			fetcher.pos++
+		}
+	}
+	reqs := fetcher.reqs
+	fetcher.mu.Unlock()
+	done, failed := fetcher.isDone(), store.failed.Load()
+	if status == "" {
+		switch {
+		case done:
+			status = "done"
+		case failed:
+			status = "failed"
+		default:
+			status = "running"
+		}
+	}
+	cancel()
+	// per-event outputs
+	served := map[int]c22Req{}
+	for _, rq := range reqs {
+		served[rq.item] = rq
+	}
+	for k, it := range s.items {
+		if it.kind == "target" {
+			continue
+		}
+		rq, ok := served[k]
+		switch {
+		case s.failAt >= 0:
+			s.outs[it.line] = "-"
+		case ok:
+			s.outs[it.line] = fmt.Sprintf("req %d %d", rq.height, rq.min)
+		default:
+			s.outs[it.line] = "closed"
+		}
+	}
+	s.oracle(status, done, fetcher, store, oldest, target0)
+	for j := startLine + 1; j < len(s.lines); j++ {
+		if s.lines[j] != "end" {
+			continue
+		}
+		store.mu.Lock()
+		var sv []string
+		for _, b := range store.saved {
+			sv = append(sv, strconv.FormatUint(b.n, 10))
+		}
+		store.mu.Unlock()
+		svs := "-"
+		if len(sv) > 0 {
+			svs = strings.Join(sv, ",")
+		}
+		var seen []string
+		ss := s.seenSet(tvw)
+		for u := 0; u < s.U; u++ {
+			if ss[u] {
+				seen = append(seen, strconv.Itoa(u))
+			}
+		}
+		sns := "-"
+		if len(seen) > 0 {
+			sns = strings.Join(seen, ",")
+		}
+		tvw.mu.Lock()
+		la := tvw.lastAcceptedBlockHeight
+		tvw.mu.Unlock()
+		s.outs[j] = fmt.Sprintf("done=%v failed=%v saved=%s la=%d seen=%s", done, failed, svs, la, sns)
+	}
+}
+
 // oracle: the property's statement on what the real syncer recorded.
-func (s *c22Seq) oracle(status string, reqs []c22Req, store *c22Store, oldest *vfBlock, seenAfter map[int]bool) {
+func (s *c22Seq) oracle(status string, done bool, f *c22Fetcher, store *c22Store, oldest, target0 *vfBlock) {
 	store.mu.Lock()
 	saved := append([]*vfBlock(nil), store.saved...)
 	store.mu.Unlock()
+	reqs := f.reqs
+	hasTargets := false
+	for _, it := range s.items {
+		hasTargets = hasTargets || it.kind == "target"
+	}
 	// (1) only the hash-linked ancestry, in order
 	exp := oldest.parent
 	for i, b := range saved {
@@ -344,46 +510,47 @@ func (s *c22Seq) oracle(status string, reqs []c22Req, store *c22Store, oldest *v
 		}
 		exp = b.parent
 	}
-	// (2) tracked set = populated set ∪ txs of the saved blocks (expiry 0 is never tracked)
-	tvw2, _ := NewTimeValidityWindow[vfTx](context.Background(), logging.NoLog{}, trace.Noop, s.index, s.target, func(int64) int64 { return s.W })
-	tvw2.populate(context.Background(), s.target)
-	want := map[int]bool{}
-	for u := 0; u < s.U; u++ {
-		if tvw2.seen.Any([]vfTx{{n: uint64(u)}}) {
-			want[u] = true
+	// (2) without forward targets: tracked set = populated set ∪ txs of the saved blocks
+	if !hasTargets {
+		seenAfter := s.seenSet(f.tvw)
+		tvw2, _ := NewTimeValidityWindow[vfTx](context.Background(), logging.NoLog{}, trace.Noop, s.index, target0, func(int64) int64 { return s.W })
+		tvw2.populate(context.Background(), target0)
+		want := s.seenSet(tvw2)
+		for _, b := range saved {
+			for _, t := range b.txs {
+				if t.expiry != 0 && int(t.n) < s.U {
+					want[int(t.n)] = true
+				}
+			}
 		}
-	}
-	for _, b := range saved {
-		for _, t := range b.txs {
-			if t.expiry != 0 && int(t.n) < s.U {
-				want[int(t.n)] = true
+		for u := 0; u < s.U; u++ {
+			if want[u] != seenAfter[u] {
+				s.violation("tracked-set-mismatch", "tx %d tracked=%v but ancestry says %v", u, seenAfter[u], want[u])
+				break
 			}
 		}
 	}
-	for u := 0; u < s.U; u++ {
-		if want[u] != seenAfter[u] {
-			s.violation("tracked-set-mismatch", "tx %d tracked=%v but ancestry says %v", u, seenAfter[u], want[u])
-			break
+	// (3) done ⇒ the window is covered
+	if done {
+		s.strongOracle("end", f)
+		if f.forced && !hasTargets && len(reqs) > 0 { // scripted minimum timestamps: done only past the largest of them, or at genesis
+			maxMin := target0.ts - s.W
+			if maxMin < 0 {
+				maxMin = 0
+			}
+			for _, rq := range reqs {
+				if it := s.items[rq.item]; !it.keep && it.newMin > maxMin {
+					maxMin = it.newMin
+				}
+			}
+			last := oldest
+			if len(saved) > 0 {
+				last = saved[len(saved)-1]
+			}
+			if !(last.ts < maxMin || last.height == 0) {
+				s.violation("done-before-min-timestamp", "finished with oldest block %d (ts %d, height %d) and min timestamp never above %d", last.n, last.ts, last.height, maxMin)
+			}
 		}
-	}
-	// (3) done only past the window or at genesis
-	maxMin := int64(math.MinInt64)
-	o := s.target.ts - s.W
-	if o < 0 {
-		o = 0
-	}
-	maxMin = o
-	for k := range reqs {
-		if s.events[k].newMin > maxMin {
-			maxMin = s.events[k].newMin
-		}
-	}
-	last := oldest
-	if len(saved) > 0 {
-		last = saved[len(saved)-1]
-	}
-	if status == "done" && len(reqs) > 0 && !(last.ts < maxMin || last.height == 0) {
-		s.violation("done-before-window-complete", "finished with oldest block %d (ts %d, height %d) and min timestamp never above %d", last.n, last.ts, last.height, maxMin)
 	}
 	// (4) progress / completion once a peer serves the real ancestry
 	mc := s.mainChain()
@@ -395,8 +562,8 @@ func (s *c22Seq) oracle(status string, reqs []c22Req, store *c22Store, oldest *v
 			s.violation("backfill-never-completes-at-genesis", "after receiving genesis (timestamp inside the window) the client requests height 0-1 = %d (event %d)", rq.height, k)
 			break
 		}
-		ev := s.events[k]
-		if ev.kind == "honest" && ev.k > 0 {
+		it := s.items[rq.item]
+		if it.kind == "honest" && it.k > 0 {
 			if _, ok := mc[rq.height]; ok {
 				s.nontriv = true
 				if k+1 < len(reqs) && reqs[k+1].height >= rq.height && reqs[k+1].height != math.MaxUint64 {
@@ -404,6 +571,10 @@ func (s *c22Seq) oracle(status string, reqs []c22Req, store *c22Store, oldest *v
 				}
 			}
 		}
+	}
+	if hasTargets {
+		s.nontriv = true
+		s.counts = append(s.counts, "seq:with-forward-targets")
 	}
 	s.counts = append(s.counts, "status:"+status, fmt.Sprintf("saved:%d", min(len(saved), 8)))
 }
@@ -468,7 +639,7 @@ func c22Generate(r *verifh.Run) []string {
 	var out []string
 	add := func(format string, a ...any) { out = append(out, fmt.Sprintf(format, a...)) }
 	const MAX = int64(math.MaxInt64)
-	// corpus: genesis inside the window (the C22 finding): chain 0..3, W=100, node knows only block 3
+	// corpus: genesis inside the window (the C22 finding, fixed): chain 0..3, W=100, node knows only block 3
 	add("reset 100 6 -1")
 	add("blk 0 999999 0 0 0")
 	add("blk 1 0 10 1 1 1 20")
@@ -501,52 +672,140 @@ func c22Generate(r *verifh.Run) []string {
 	add("resp 25 blocks b2 b1 b0")
 	add("resp %d err", MAX)
 	add("end")
+	// corpus: forward path at the boundary. Blocks 1 and 2 share timestamp 5; the node holds 2 and 3
+	// (oldestBlock = 2). Targets at oldest.ts+W-1, exactly +W (must NOT complete: tx 7 of block 1,
+	// expiry 15, is still includable at time 15 and is not tracked), then +W+1 (completes).
+	add("reset 10 9 -1")
+	add("blk 0 999999 0 0 0")
+	add("blk 1 0 5 1 1 7 15")
+	add("blk 2 1 5 2 0")
+	add("blk 3 2 6 3 1 1 12")
+	add("blk 4 3 14 4 0")
+	add("blk 5 4 15 5 1 2 20")
+	add("blk 6 5 16 6 0")
+	add("idx+ 2")
+	add("idx+ 3")
+	add("start 3")
+	add("resp = err")
+	add("target 4")
+	add("resp = err")
+	add("target 5")
+	add("resp = blocks xdead")
+	add("target 6")
+	add("resp = err")
+	add("resp %d err", MAX)
+	add("end")
 	rng := r.RNG
-	nseq := r.N(250, 4000)
+	nseq := r.N(320, 4000)
 	for q := 0; q < nseq; q++ {
+		forward := q%2 == 1
 		W := []int64{0, 5, 15, 30, 100, 1000}[rng.Intn(6)]
-		U := 10
+		if forward {
+			W = []int64{3, 5, 8, 15}[rng.Intn(4)]
+		}
 		failAt := -1
-		if rng.Chance(10) {
+		if !forward && rng.Chance(10) {
 			failAt = rng.Intn(4)
 		}
-		add("reset %d %d %d", W, U, failAt)
-		n := 3 + rng.Intn(8)
-		ts := int64([]int{0, 0, 3, 50}[rng.Intn(4)])
-		type bl struct {
-			id, parent uint64
-			ts         int64
-			h          uint64
-		}
-		chain := []bl{{0, 999999, ts, 0}}
-		add("blk 0 999999 %d 0 0", ts)
-		var forks []uint64
-		for h := 1; h <= n; h++ {
-			ts += int64(rng.Intn(12))
-			nt := rng.Intn(3)
-			var sb strings.Builder
-			for j := 0; j < nt; j++ {
-				fmt.Fprintf(&sb, " %d %d", rng.Intn(U), ts+int64(rng.Intn(int(W)+1)))
-			}
-			chain = append(chain, bl{uint64(h), uint64(h - 1), ts, uint64(h)})
-			add("blk %d %d %d %d %d%s", h, h-1, ts, h, nt, sb.String())
-			if rng.Chance(25) { // a fork sibling (same height, other content), and sometimes a child of it
-				fid := uint64(100 + h)
-				add("blk %d %d %d %d 1 %d %d", fid, h-1, ts, h, rng.Intn(U), ts+1)
-				forks = append(forks, fid)
-			}
-		}
-		// what the node has locally: the target and maybe some blocks right below it
-		have := 1 + rng.Intn(2)
+		n := 3 + rng.Intn(8)     // start target height
+		have := 1 + rng.Intn(2) // blocks held locally
 		if rng.Chance(10) {
 			have = n + 1
 		}
+		if forward {
+			have = 1 + rng.Intn(3)
+		}
+		m := 0 // forward targets
+		if forward {
+			m = 2 + rng.Intn(4)
+		}
+		var body []string
+		nextTx := 0
+		txs := func(ts int64) string {
+			nt := rng.Intn(3)
+			var sb strings.Builder
+			fmt.Fprintf(&sb, "%d", nt)
+			for j := 0; j < nt; j++ {
+				e := ts + int64(rng.Intn(int(W)+1))
+				if rng.Chance(50) {
+					e = ts + W
+				}
+				fmt.Fprintf(&sb, " %d %d", nextTx, e)
+				nextTx++
+			}
+			return sb.String()
+		}
+		ts := int64([]int{0, 0, 3, 50}[rng.Intn(4)])
+		tss := []int64{ts}
+		body = append(body, fmt.Sprintf("blk 0 999999 %d 0 0", ts))
+		var forks []uint64
+		oldestH := n - have + 1
+		if oldestH < 0 {
+			oldestH = 0
+		}
+		for h := 1; h <= n+m; h++ {
+			switch {
+			case h > n && forward: // forward targets: aim at oldest.ts + W - 1, + W, + W + 1
+				want := tss[oldestH] + W + int64(h-n) - 2 + int64(rng.Intn(2))
+				if rng.Chance(25) {
+					want = ts + int64(rng.Intn(3))
+				}
+				if want < ts {
+					want = ts
+				}
+				ts = want
+			case forward && rng.Chance(45): // runs of blocks sharing one timestamp
+			case forward:
+				ts += int64(1 + rng.Intn(3))
+			default:
+				ts += int64(rng.Intn(12))
+			}
+			if ts == 0 {
+				ts = 1 // only genesis may have timestamp 0 (expiry 0 is never tracked)
+			}
+			tss = append(tss, ts)
+			body = append(body, fmt.Sprintf("blk %d %d %d %d %s", h, h-1, ts, h, txs(ts)))
+			if !forward && rng.Chance(25) { // a fork sibling (same height, other content)
+				fid := uint64(100 + h)
+				body = append(body, fmt.Sprintf("blk %d %d %d %d 1 %d %d", fid, h-1, ts, h, nextTx, ts+W))
+				nextTx++
+				forks = append(forks, fid)
+			}
+		}
+		add("reset %d %d %d", W, nextTx+1, failAt)
+		out = append(out, body...)
 		for h := n; h > n-have && h >= 0; h-- {
 			add("idx+ %d", h)
 		}
 		add("start %d", n)
+		if forward {
+			// slow / failing / lying peers while consensus keeps delivering targets
+			for t := 1; t <= m; t++ {
+				for e := rng.Intn(2); e >= 0; e-- {
+					switch k := rng.Intn(100); {
+					case k < 40:
+						add("resp = err")
+					case k < 55:
+						add("resp = honest 0")
+					case k < 70:
+						add("resp = blocks x%s", verifh.Hex(rng.Bytes(1+rng.Intn(5))))
+					case k < 80:
+						add("resp = blocks b%d", rng.Intn(n+1))
+					default:
+						add("resp = honest %d", 1+rng.Intn(2))
+					}
+				}
+				add("target %d", n+t)
+			}
+			if rng.Chance(50) {
+				add("resp = honest %d", 1+rng.Intn(4))
+			}
+			add("resp %d err", MAX)
+			add("end")
+			continue
+		}
 		nev := 1 + rng.Intn(7)
-		min0 := chain[n].ts - W
+		min0 := tss[n] - W
 		if min0 < 0 {
 			min0 = 0
 		}
@@ -565,8 +824,8 @@ func c22Generate(r *verifh.Run) []string {
 			default:
 				// adversarial: random mix of real blocks (any order), fork blocks, garbage
 				var toks []string
-				m := 1 + rng.Intn(4)
-				for j := 0; j < m; j++ {
+				mm := 1 + rng.Intn(4)
+				for j := 0; j < mm; j++ {
 					switch x := rng.Intn(10); {
 					case x < 6:
 						toks = append(toks, fmt.Sprintf("b%d", rng.Intn(n+1)))
